@@ -28,7 +28,9 @@ void vh_nd_arr(void* p, size_t elsize, size_t count, const char* name);
 #define VH_STOP() exit(vh_failed ? 1 : 0)
 #else
 #define ND(T, name) T name
-#define ND_ARR(T, name, n) T name[n]
+/* element-wise copy from uninitialised (= nondeterministic) locals, so that the counterexample trace
+ * contains one assignment per element (needed for native replay) */
+#define ND_ARR(T, name, n) T name[n]; { unsigned long vh_i_; for (vh_i_ = 0; vh_i_ < (n); vh_i_++) { T vh_e_; name[vh_i_] = vh_e_; } }
 #define ND_INTO(lv, name) do { } while (0)
 #define ASSUME(c) __CPROVER_assume(c)
 #define OBL(c, name) __CPROVER_assert(c, "OBL " name)
